@@ -39,13 +39,13 @@ macro_rules! cut {
 }
 cut!(q_h11cut__stts_e1, 5, SttsBox, any_stts::<1>(), ref_stts, 32);
 cut!(q_h11cut__stsc_e1, 5, StscBox, any_stsc::<1>(), ref_stsc, 36);
-cut!(q_h11cut__stsz_table_e1, 11, StszBox, any_stsz::<1>(false), ref_stsz, 32);
-cut!(q_h11cut__stco_e1, 11, StcoBox, any_stco::<1>(), ref_stco, 28);
+cut!(t_h11cut__stsz_table_e1, 11, StszBox, any_stsz::<1>(false), ref_stsz, 32);
+cut!(t_h11cut__stco_e1, 11, StcoBox, any_stco::<1>(), ref_stco, 28);
 cut!(q_h11cut__ctts_e1, 5, CttsBox, any_ctts::<1>(), ref_ctts, 32);
 cut!(q_h11cut__tkhd_v0, 4, TkhdBox, any_tkhd(0), ref_tkhd, 100);
 cut!(q_h11cut__tfhd_opt39, 4, TfhdBox, any_tfhd(0x39), ref_tfhd, 48);
 cut!(q_h11cut__trun_opt301_n1, 11, TrunBox, any_trun::<1>(0x301), ref_trun, 40);
-cut!(q_h11cut__mvex_trex, 6, MvexBox, any_mvex(None), ref_mvex, 48);
+cut!(t_h11cut__mvex_trex, 6, MvexBox, any_mvex(None), ref_mvex, 48);
 cut!(t_h11cut__stts_e2, 6, SttsBox, any_stts::<2>(), ref_stts, 40);
 cut!(t_h11cut__stsc_e2, 6, StscBox, any_stsc::<2>(), ref_stsc, 48);
 cut!(t_h11cut__stsz_table_e2, 19, StszBox, any_stsz::<2>(false), ref_stsz, 36);
